@@ -11,7 +11,7 @@ Local Open Scope string_scope.
 Lemma c12_call_ok : call_ok c12_call.
 Proof.
   intros qual name vs cur r Hvs H. unfold c12_call in H.
-  destruct (String.eqb name "idf"); [|discriminate].
+  destruct (String.eqb name "idf" || String.eqb name "slowf")%bool; [|discriminate].
   destruct vs as [|x [|y rest]]; try discriminate. inversion H; subst. cbn. inversion Hvs; assumption.
 Qed.
 
